@@ -305,3 +305,10 @@ def c06_8(ctx, r):
     from .c18 import c18_3
 
     c18_3(ctx, r)
+
+
+@rule(P, "C06.9", "T1", "the persisted active-batch list is rewritten whenever it changed (the next round starts from it)", min_obligations=1)
+def c06_9(ctx, r):
+    from .c05 import ids_persisted_when_changed
+
+    ids_persisted_when_changed(ctx, r, "C06.9")
